@@ -110,7 +110,19 @@ def owners(rec, verdict, step):
 def wc_signature(rec, verdict, step=None):
     """Structural signature of a violation.  Panics get the shape of the pre-state (the known
     findings F1-F5 of spec/WorkingCopy.tla); a panic of any other shape gets ':other'."""
-    if not verdict.startswith("Panic:") or rec.get("op") != "wc" or not rec["obs"]:
+    if rec.get("op") != "wc" or not rec["obs"]:
+        return verdict
+    if verdict == "SnapshotOK" and step is not None:
+        # F6: a path with a (placeholder) file state left by a skipped update entry, not in
+        # the tree, ignored, and nevertheless recorded by this snapshot
+        pre, post = _pre(rec, step), rec["obs"][step]
+        skipped_before = any(o["stats"]["skipped"] > 0 for o in rec["obs"][:step])
+        for n, p in enumerate(PATHS):
+            if skipped_before and pre["fs"][n]["k"] != "none" and pre["tree"][n]["k"] == "absent" \
+                    and pre["disk"][n]["k"] in ("file", "symlink") and post["tree"][n]["k"] != "absent":
+                return "SnapshotOK:stale-file-state-tracks-ignored-path"
+        return verdict
+    if not verdict.startswith("Panic:"):
         return verdict
     i = len(rec["obs"]) - 1 if step is None else step
     st, pre, msg = rec["steps"][i], _pre(rec, i), rec["obs"][i].get("msg", "")
